@@ -73,6 +73,15 @@ def holder_flow(rng):
 # referring to a finished flow / action that is read after the clean-up age; an activated flow restarted
 # after its old instance aged away.
 TEMPLATES = {
+    # flows called with the same parameter name and the same scalar value: their local contexts are equal, key for key, when the
+    # state is saved; afterwards one of them reassigns its parameter and the others report theirs
+    "equal-contexts": (
+        "flow main\n  activate varholder\n  start fa 10\n  start fb 10\n  start fc 10\n  match Never()\n\n"
+        "flow fa $points\n  match A()\n  $points = $points * 2\n  send Rep(w=\"a\", p=$points)\n  match A()\n  send Rep(w=\"a\", p=$points)\n\n"
+        "flow fb $points\n  match B()\n  send Rep(w=\"b\", p=$points)\n  match B()\n  $points = \"other\"\n  send Rep(w=\"b\", p=$points)\n\n"
+        "flow fc $points\n  match C()\n  send Rep(w=\"c\", p=$points)\n  match C()\n  send Rep(w=\"c\", p=$points)\n",
+        [["X", "A", "B", "C", "A", "B", "C"], ["A", "X", "C", "B", "B", "A", "C"], ["X", "X", "B", "A", "C", "C"]],
+    ),
     "shared-action-owner-ends-first": (
         "flow main\n  activate varholder\n  start fa\n  start fb\n  match Never()\n\n"
         "flow fa\n  match Go()\n  start SharedAction() as $s\n\n"
